@@ -182,27 +182,38 @@ def lenKws (p : Prim) (l : LenC) : List Kw :=
   let f : Int → Int := if p = .bytes then base64Len else id
   optKw .minLength (l.min.map f) ++ optKw .maxLength (l.max.map f)
 
+/-- `minLength`/`maxLength` of `_translate_constraints` -/
+def lenPart (sh : Shape) (cs : Cons) : List Kw :=
+  match sh, cs.len with
+  | .prim .str, some l => lenKws .str l
+  | .prim .bytes, some l => lenKws .bytes l
+  | _, _ => []
+
+/-- the patterns `_translate_constraints` renders, each through `fix_pattern` -/
+def patsOf (sh : Shape) (cs : Cons) : Except Crash (List Regex) :=
+  match sh, cs.pats with
+  | .prim .str, some ps => mapM' fixPattern ps
+  | _, _ => .ok []
+
+/-- `minItems`/`maxItems` of `_translate_constraints` -/
+def itemsPart (sh : Shape) (cs : Cons) : List Kw :=
+  match sh, cs.len with
+  | .list, some l => optKw .minItems l.min ++ optKw .maxItems l.max
+  | _, _ => []
+
+def patPart : List Regex → List Kw
+  | [] => []
+  | r :: _ => [.pattern r]
+
+def additionalOf (pats : List Regex) : List Schema := (pats.drop 1).map fun r => .mk [.pattern r]
+
 /-- `_translate_constraints`: `none`, or the base sub-schema and the additional ones (`_AllOf`) -/
 def translate (sh : Shape) (cs : Cons) : Except Crash (Option (List Kw × List Schema)) :=
-  let lenPart : List Kw :=
-    match sh, cs.len with
-    | .prim .str, some l => lenKws .str l
-    | .prim .bytes, some l => lenKws .bytes l
-    | _, _ => []
-  let patsE : Except Crash (List Regex) :=
-    match sh, cs.pats with
-    | .prim .str, some ps => mapM' fixPattern ps
-    | _, _ => .ok []
-  match patsE with
+  match patsOf sh cs with
   | .error c => .error c
   | .ok pats =>
-    let patPart : List Kw := match pats with | [] => [] | r :: _ => [.pattern r]
-    let additional : List Schema := (pats.drop 1).map fun r => .mk [.pattern r]
-    let itemsPart : List Kw :=
-      match sh, cs.len with
-      | .list, some l => optKw .minItems l.min ++ optKw .maxItems l.max
-      | _, _ => []
-    let base := lenPart ++ patPart ++ itemsPart
+    let base := lenPart sh cs ++ patPart pats ++ itemsPart sh cs
+    let additional := additionalOf pats
     if base.isEmpty ∧ !additional.isEmpty then .error .translateAssert
     else if base.isEmpty then .ok none
     else .ok (some (base, additional))
